@@ -359,7 +359,7 @@ func c03Table(vid int, v c03Vec, reqs []c03Route, sym *c03Sym) *c03Obs {
 				o.Err = "send: " + err.Error()
 				return o
 			}
-			m, err := c.Recv(slowBudget.Timeout())
+			m, err := recvPatient(c, slowBudget.Timeout())
 			if err != nil {
 				slowBudget.Spent()
 				break
@@ -369,7 +369,7 @@ func c03Table(vid int, v c03Vec, reqs []c03Route, sym *c03Sym) *c03Obs {
 		}
 	}
 	for pending > 0 {
-		m, err := c.Recv(slowBudget.Timeout())
+		m, err := recvPatient(c, slowBudget.Timeout())
 		if err != nil {
 			slowBudget.Spent()
 			break // missing answers are reported as nfinal = 0
